@@ -394,10 +394,15 @@ type sdObs struct {
 // an application may build once and add to every pipeline) decodes the inbound streams of two channels
 // whose frames arrive in fragments (header split across reads).
 func sharedDecoder(name string, dec func() netty.Handler, stream []byte, want []string, bound int) *explore.Scenario {
+	return sharedDecoder2(name, dec, [2][]byte{stream, stream}, [2][]string{want, want}, bound)
+}
+
+// sharedDecoder2: the two channels receive different streams.
+func sharedDecoder2(name string, dec func() netty.Handler, streams [2][]byte, wants [2][]string, bound int) *explore.Scenario {
 	return &explore.Scenario{
 		Name:  "codec/" + name + ": one decoder instance shared by two channels reading concurrently",
 		Bound: bound,
-		Cache: true,
+		Cache: false, // (happens-before state caching assumes that causally unordered steps commute, which is exactly what unsynchronised shared decoder state would break)
 		Cfg:   vsched.Config{MaxSteps: 8000, Race: true},
 		Init:  func() any { return &sdObs{} },
 		Body: func(v any) {
@@ -406,6 +411,7 @@ func sharedDecoder(name string, dec func() netty.Handler, stream []byte, want []
 			var chs []netty.Channel
 			for i := 0; i < 2; i++ {
 				t := mock.NewTransport(fmt.Sprintf("t%d", i+1))
+				stream := streams[i]
 				for k := 0; k < len(stream); k += 1 + i { // channel 1 byte-wise, channel 2 in pairs
 					e := k + 1 + i
 					if e > len(stream) {
@@ -431,6 +437,7 @@ func sharedDecoder(name string, dec func() netty.Handler, stream []byte, want []
 			// unsynchronised shared state inside the decoder that the monitor cannot see (memory handed to
 			// std-lib calls) still shows as one channel's frames being disturbed by the other one
 			for i := 0; i < 2; i++ {
+				want := wants[i]
 				if fmt.Sprint(o.got[i]) != fmt.Sprint(want) || len(o.excs[i]) > 0 {
 					fs = append(fs, explore.Finding{Key: "shared-decoder-state/" + name, Msg: fmt.Sprintf("channel %d decoded %q (exceptions %q) from a stream that holds %q: the two channels disturb each other through the shared decoder instance", i+1, o.got[i], o.excs[i], want)})
 					break
@@ -561,6 +568,8 @@ func main() {
 					return []netty.Handler{frame.LengthFieldCodec(binary.BigEndian, 1<<16, 0, 2, 0, 2), format.TextCodec()}
 				}, func(i int) any { return strings.Repeat("x", i*3) }, b+1),
 				sharedDecoder("length-field", func() netty.Handler { return frame.LengthFieldCodec(binary.BigEndian, 1024, 0, 2, 0, 2) }, []byte{0, 3, 'a', 'b', 'c', 0, 1, 'z'}, []string{"abc", "z"}, b),
+				sharedDecoder2("length-field(magic byte + length, header kept in the frame)", func() netty.Handler { return frame.LengthFieldCodec(binary.BigEndian, 1024, 1, 1, 0, 0) },
+					[2][]byte{{'A', 3, 'a', 'b', 'c', 'A', 1, 'z'}, {'B', 2, 'r', 's', 'B', 1, 'q'}}, [2][]string{{"A\x03abc", "A\x01z"}, {"B\x02rs", "B\x01q"}}, b+1),
 				sharedDecoder("varint", func() netty.Handler { return frame.VarintLengthFieldCodec(1024) }, []byte{3, 'a', 'b', 'c', 1, 'z'}, []string{"abc", "z"}, b),
 				sharedDecoder("delimiter", func() netty.Handler { return frame.DelimiterCodec(1024, "\r\n", true) }, []byte("ab\r\nc\r\n"), []string{"ab", "c"}, b),
 				sharedDecoder("fixed-length", func() netty.Handler { return frame.FixedLengthCodec(3) }, []byte("abcxyz"), []string{"abc", "xyz"}, b),
